@@ -437,6 +437,27 @@ TargetAsWritten(V, R, o) ==
                        ELSE /\ y.tidx = DetIdx(R, R.corpora[k], x)
                             /\ y.tds = DetDs(R, R.corpora[k], x)
                             /\ (y.tidx # "" \/ y.tds # "")
+\* TEXT written as an operation parameter (a regexp query, a Windows path, a script: characters that are special to re
+\* replacement templates, Jinja or JSON) is opaque to every rule above, so it travels next to the file:
+\*   T = [ops: Seq([i, w]), tasks: Seq([c, e, i, w])]   w = what the file says (the JSON string literal decoded), as the
+\*       sequence of its UTF-8 bytes, written in the i-th entry of the operations section / in the inline operation of
+\*       task i of element e of challenge c - wherever that text lives (track.json, a first- or second-level included part);
+\*   o.txt = Seq([c, e, i, w])  for every task of the LOADED track whose operation carries the parameter: its bytes.
+\* "operations ... are exactly those written in the file (... with included parts)": the operation a task executes carries
+\* exactly the text written for it, byte for byte, and no other task carries any.
+SeqElems(s) == {s[j] : j \in 1..Len(s)}
+TaskText(R, T, c, e, i) ==
+    LET t == R.chals[c].sched[e].tasks[i] IN
+    IF t.opk = "str"
+    THEN IF \E k \in 1..Len(R.ops) : R.ops[k].name = t.op
+         THEN LET n == CHOOSE k \in 1..Len(R.ops) : R.ops[k].name = t.op IN {x.w : x \in {x \in SeqElems(T.ops) : x.i = n}}
+         ELSE {}
+    ELSE {x.w : x \in {x \in SeqElems(T.tasks) : x.c = c /\ x.e = e /\ x.i = i}}
+ExpText(R, T) == UNION {UNION {{[c |-> c, e |-> ps[1], i |-> ps[2], w |-> w] : w \in TaskText(R, T, c, ps[1], ps[2])} :
+                                  ps \in AllPos(R.chals[c])} : c \in 1..Len(R.chals)}
+IncludedTextVerbatim(V, R, T, o) == (V = {} /\ o.ok) => SeqElems(o.txt) = ExpText(R, T)
+\* (leg M has no text: Code passes operation parameters through untouched; the clause is evaluated on recorded loads)
+
 Clauses == {"Fidelity", "ValidLoads", "Rejection", "TargetAsWritten"}
 Holds(cl, V, R, o) == CASE cl = "Fidelity" -> Fidelity(V, R, o)
                         [] cl = "ValidLoads" -> ValidLoads(V, o)
